@@ -103,7 +103,7 @@ def rseq_lookup(I, rs, key, raise_missing=False, default=None):
     j = I.fresh("k_" + rs.label, z3.IntSort())
     n = rs.region.length
     # distinctness of keys is an axiom of the dict model (asserted by the harness)
-    ex = z3.Exists([j], z3.And(j >= 0, j < n, z3.Select(rs.keys, j) == t))
+    ex = z3.Exists([j], z3.And(j >= 0, j < n, z3.Select(rs.keys, j) == t), patterns=[z3.Select(rs.keys, j)])
     if I.prover.fork(ex):
         jj = I.fresh("at_" + rs.label, z3.IntSort())
         I.prover.assume(z3.And(jj >= 0, jj < n, z3.Select(rs.keys, jj) == t))
@@ -351,7 +351,7 @@ def slist_method(I, l, name):
         def remove(I_, a, k):
             t = I_.to_term(a[0])
             j = z3.Int("j")
-            ex = z3.Exists([j], z3.And(j >= 0, j < l.length, z3.Select(l.elt, j) == t))
+            ex = z3.Exists([j], z3.And(j >= 0, j < l.length, z3.Select(l.elt, j) == t), patterns=[z3.Select(l.elt, j)])
             if not I_.prover.fork(ex):
                 I_.raise_builtin("ValueError", "list.remove(x): x not in list")
             p = I_.fresh("rm_pos", z3.IntSort())
